@@ -706,6 +706,7 @@ type SpecEnv struct {
 	pkg     *types.Package
 	locals  func(name string) (Val, bool)
 	inOld   bool
+	entryParams map[string]Val // entry values of the parameters (what old(p) means; also p itself in pre/postconditions)
 	callSite bool // evaluating a callee's postcondition as an assumption
 	freshLo  Term // call site: objects allocated by the callee are above this
 	facts   []Term
@@ -740,7 +741,25 @@ func (env *SpecEnv) evalBool(e *SpecExpr) Term {
 func (env *SpecEnv) eval(e *SpecExpr) Val {
 	switch e.Op {
 	case "==>":
-		return boolVal(Implies(env.evalBool(e.L), env.evalBool(e.R)))
+		l := env.evalBool(e.L)
+		if l.IsFalse() {
+			return boolVal(TTrue)
+		}
+		// a local variable named on the right may not be in scope on this path: the
+		// implication then holds only if its left side is false here
+		r := func() (r Term) {
+			defer func() {
+				if x := recover(); x != nil {
+					if se, ok := x.(specError); ok && strings.HasPrefix(se.msg, "unknown identifier") {
+						r = TFalse
+						return
+					}
+					panic(x)
+				}
+			}()
+			return env.evalBool(e.R)
+		}()
+		return boolVal(Implies(l, r))
 	case "<==>":
 		return boolVal(Iff(env.evalBool(e.L), env.evalBool(e.R)))
 	}
@@ -750,6 +769,11 @@ func (env *SpecEnv) eval(e *SpecExpr) Val {
 func (env *SpecEnv) lookupIdent(name string) (Val, bool) {
 	if v, ok := env.vars[name]; ok {
 		return v, true
+	}
+	if env.inOld {
+		if v, ok := env.entryParams[name]; ok {
+			return v, true
+		}
 	}
 	switch name {
 	case "true":
@@ -793,6 +817,9 @@ func (env *SpecEnv) lookupIdent(name string) (Val, bool) {
 		if v, ok := env.locals(name); ok {
 			return v, true
 		}
+	}
+	if v, ok := env.entryParams[name]; ok {
+		return v, true
 	}
 	if env.pkg != nil {
 		if obj := env.pkg.Scope().Lookup(name); obj != nil {
@@ -1326,6 +1353,18 @@ func (env *SpecEnv) evalCall(x *ast.CallExpr) Val {
 			out.L[i] = Ite(in, ev.L[i], z.L[i])
 		}
 		return out
+	case "zero":
+		// zero("[]pkg.T"): the zero value of a type written as a Go type expression
+		lit, ok := x.Args[0].(*ast.BasicLit)
+		if !ok {
+			specFail("zero needs a string literal type expression")
+		}
+		src, _ := strconv.Unquote(lit.Value)
+		te, err := parser.ParseExpr(src)
+		if err != nil {
+			specFail("zero(%q): %v", src, err)
+		}
+		return zeroVal(env.resolveType(te))
 	case "typetag":
 		return intVal(arg(0).L[0])
 	case "as":
@@ -1503,6 +1542,39 @@ func (env *SpecEnv) evalCall(x *ast.CallExpr) Val {
 	}
 	specFail("unknown spec function %q", fname)
 	return Val{}
+}
+
+// resolveType resolves a Go type expression in the scope of the contract's package.
+func (env *SpecEnv) resolveType(e ast.Expr) types.Type {
+	switch x := e.(type) {
+	case *ast.Ident:
+		if env.pkg != nil {
+			if tn, ok := env.pkg.Scope().Lookup(x.Name).(*types.TypeName); ok {
+				return tn.Type()
+			}
+		}
+		if tn, ok := types.Universe.Lookup(x.Name).(*types.TypeName); ok {
+			return tn.Type()
+		}
+	case *ast.SelectorExpr:
+		if id, ok := x.X.(*ast.Ident); ok && env.pkg != nil {
+			for _, imp := range env.pkg.Imports() {
+				if imp.Name() == id.Name {
+					if tn, ok := imp.Scope().Lookup(x.Sel.Name).(*types.TypeName); ok {
+						return tn.Type()
+					}
+				}
+			}
+		}
+	case *ast.StarExpr:
+		return types.NewPointer(env.resolveType(x.X))
+	case *ast.ArrayType:
+		if x.Len == nil {
+			return types.NewSlice(env.resolveType(x.Elt))
+		}
+	}
+	specFail("cannot resolve type expression %s", exprString(e))
+	return nil
 }
 
 // addrOrVal evaluates an expression naming a struct field without loading it
